@@ -9,7 +9,8 @@ def gen_ops(r, n):
     ops = []; live = True
     for _ in range(n):
         c = r.random()
-        if c < 0.3 and live: ops.append(f"{r.choice('FFG')}:{r.randrange(NFN)}")
+        if c < 0.02 and live: ops.append("U")      # a counted fake of a sync function that stays unmet: this injector's drop will panic
+        elif c < 0.3 and live: ops.append(f"{r.choice('FFG')}:{r.randrange(NFN)}")
         elif c < 0.8: ops.append(("T:" if r.random() < 0.2 else "A:") + str(r.randrange(NFN)))
         elif c < 0.84 and r.random() < 0.5: ops.append(f"{r.choice('XXY')}:{r.randrange(NFN)}")
         elif c < 0.9 and live: ops.append("D"); live = False
@@ -47,6 +48,10 @@ def async_part(res, tier, seed, n, long):
     cases += [("sh0", ["S:0", "S:4", "A:0", "A:4", "G:0", "A:0", "A:4", "T:4", "F:0", "A:4", "D", "A:0", "A:4"]), ("sh1", ["S:4", "S:0", "G:4", "A:0", "A:4", "F:4", "T:0", "D", "N", "S:0", "A:0", "A:4"]),
               ("sh2", ["F:0", "S:0", "S:4", "A:0", "G:0", "G:0", "A:4", "A:0"]),
               # a fake that lives in another mapping 2-4 GiB from the executable (R), awaited here and on another thread, its sibling untouched
+              # an injector that ALSO holds a counted fake of a sync function whose budget stays unmet: its drop panics (caught), and the async
+              # functions it faked (and re-faked) must be back to their originals all the same
+              ("cu0", ["U", "F:0", "G:0", "A:0", "D", "A:0", "A:4"]), ("cu1", ["F:4", "U", "F:4", "G:1", "F:1", "A:1", "D", "A:4", "A:1", "N", "F:0", "A:4", "A:0", "A:1"]),
+              ("cu2", ["F:3", "G:3", "F:3", "U", "T:3", "D", "T:3", "N", "G:5", "A:3", "A:5"]), ("cu3", ["U", "F:2", "F:2", "F:5", "G:5", "D", "A:2", "A:5", "N", "U", "F:5", "D", "A:5"]),
               ("fr0", ["R:0", "A:0", "T:0", "A:4", "D", "A:0"]), ("fr1", ["F:4", "R:4", "A:4", "A:0", "G:4", "A:4", "R:0", "T:0", "D", "A:4", "A:0"])]
     lines = [f"{cid} {','.join(ops)}" for cid, ops in cases]
     shards = [lines[i::8] for i in range(8)]
@@ -59,7 +64,7 @@ def async_part(res, tier, seed, n, long):
             if len(t) >= 2: obs.setdefault(t[0], {})[t[1]] = t[2] if len(t) > 2 else ""
     # X ops (another thread's whole lifetime) are serialised by the process-wide guard after the current injector's drop (or run at once when
     # there is none) and restore what they did: the model runs the sequence without them
-    M = vlib.run_model([f"{cid} asyncrun {','.join(map(str, YIELDS))} {','.join(o for o in ops if not o.startswith(('X:', 'Y:'))) or '-'}" for cid, ops in cases])
+    M = vlib.run_model([f"{cid} asyncrun {','.join(map(str, YIELDS))} {','.join(o for o in ops if not o.startswith(('X:', 'Y:')) and o != 'U') or '-'}" for cid, ops in cases])
     distinct = set(); corr = []
     orig_after = ",".join(f"{i}:{'u' if i == 2 else 'o'}:{1 + YIELDS[i]}:1:0" for i in range(NFN))
     for cid, ops in cases:
@@ -83,7 +88,7 @@ def async_part(res, tier, seed, n, long):
         for op, g in zip(ops, got):
             if g.startswith("F!"):
                 res.violation(f"while faking {op} the library wrote and flushed code that is not a branch ({g[2:]} flushes): the function was taken back to its original code in between, so an await on another thread at that moment runs the original body", case, g)
-        keep = [k for k, op in enumerate(ops) if not op.startswith(("X:", "Y:"))]
+        keep = [k for k, op in enumerate(ops) if not op.startswith(("X:", "Y:")) and op != "U"]
         got_all = got; got = [got[k] for k in keep if k < len(got)]; ops_m = [ops[k] for k in keep]
         # model-free monitor: the spec of the statement, straight on the observation
         faked = {}; live = True
